@@ -206,6 +206,15 @@ func VerifC10_Lifecycle() {
 	old := verifAppliedChild(env.ConfigMap("ns", "old", "", "x"), parent, "uid-old")
 	env.SetLabel(old, "controller-uid", "puid")
 	w.Srv.Put("configmaps", old)
+	// optionally a child the parent controls whose labels no longer satisfy the
+	// (generated) selector: a live parent releases it (one update of that child),
+	// a parent that is being deleted must leave it alone
+	if rt.Bool("an-owned-child-no-longer-matches-the-selector") {
+		rt.Cover("owned-child-stopped-matching")
+		stray := verifAppliedChild(env.ConfigMap("ns", "stray", "", "z"), parent, "uid-stray")
+		env.SetLabel(stray, "controller-uid", "someone-else")
+		w.Srv.Put("configmaps", stray)
+	}
 	desired := []*unstructured.Unstructured{env.ConfigMap("ns", "new", "", "y")}
 	mk := func(on bool) *verifHook {
 		return &verifHook{enabled: on, fn: func(req *v1.CompositeHookRequest) (*v1.CompositeHookResponse, error) {
